@@ -23,6 +23,9 @@ type apiScope struct {
 	ReadOnly map[*ast.FuncDecl]bool
 	// NotSet: reachable from a documented root other than Set
 	NotSet map[*ast.FuncDecl]bool
+	// AroundSet: reachable from a documented root other than Set on a call path
+	// that does not pass through Set (helpers that only Set calls are not in it)
+	AroundSet map[*ast.FuncDecl]bool
 }
 
 func (p *Pkg) calleesOf(fd *ast.FuncDecl) []*ast.FuncDecl {
@@ -52,7 +55,7 @@ func (p *Pkg) API() *apiScope {
 	if p.api != nil {
 		return p.api
 	}
-	a := &apiScope{Roots: map[string]*ast.FuncDecl{}, Reach: map[string]map[*ast.FuncDecl]bool{}, All: map[*ast.FuncDecl]bool{}, ReadOnly: map[*ast.FuncDecl]bool{}, NotSet: map[*ast.FuncDecl]bool{}}
+	a := &apiScope{Roots: map[string]*ast.FuncDecl{}, Reach: map[string]map[*ast.FuncDecl]bool{}, All: map[*ast.FuncDecl]bool{}, ReadOnly: map[*ast.FuncDecl]bool{}, NotSet: map[*ast.FuncDecl]bool{}, AroundSet: map[*ast.FuncDecl]bool{}}
 	p.api = a
 	for _, n := range []string{"ParseVector", "Rating"} {
 		if fd := p.Funcs[n]; fd != nil && fd.Body != nil {
@@ -102,6 +105,19 @@ func (p *Pkg) API() *apiScope {
 			work = append(work, p.calleesOf(f)...)
 		}
 		a.Reach[n] = r
+		if n != "Set" {
+			setRoot := a.Roots["Set"]
+			work := []*ast.FuncDecl{a.Roots[n]}
+			for len(work) > 0 {
+				f := work[len(work)-1]
+				work = work[:len(work)-1]
+				if a.AroundSet[f] || f == setRoot {
+					continue
+				}
+				a.AroundSet[f] = true
+				work = append(work, p.calleesOf(f)...)
+			}
+		}
 		for f := range r {
 			a.All[f] = true
 			if n != "Set" {
